@@ -52,7 +52,7 @@ def tables_for(sizes):
     return [[{'id': r * 1000 + i, 't': 'row-%d-%d é' % (r, i)} for i in range(n)] for r, n in enumerate(sizes)]
 
 
-def make_flow(tables, ncp, cpdir, cnt, fail_at=None, src_fail=None):
+def make_flow(tables, ncp, cpdir, cnt, fail_at=None, src_fail=None, up_fail=None):
     d = lab.df()
 
     def source(i):
@@ -66,7 +66,23 @@ def make_flow(tables, ncp, cpdir, cnt, fail_at=None, src_fail=None):
     desc = {'resources': [{'name': 'res%d' % i, 'path': 'res%d.csv' % i, 'schema': {'fields': copy.deepcopy(F)}}
                           for i in range(len(tables))]}
     steps = [d.load((desc, [source(i) for i in range(len(tables))]), strip=False),
-             d.add_field('a', 'integer', 1), d.checkpoint('c0', checkpoint_path=cpdir)]
+             d.add_field('a', 'integer', 1)]
+    if up_fail is not None:
+        # a step IN FRONT of the checkpoints whose end-of-stream work fails: after the last row of the last resource
+        # ('res_end') or after the last resource ('pkg_end') - every row has passed the checkpoint writer by then
+        def finishing(package):
+            yield package.pkg
+            last = len(tables) - 1
+            for j, res in enumerate(package):
+                def it(res=res, j=j):
+                    yield from res
+                    if up_fail == 'res_end' and j == last:
+                        raise RuntimeError('upstream step failed in its end-of-stream work')
+                yield it()
+            if up_fail == 'pkg_end':
+                raise RuntimeError('upstream step failed after its last resource')
+        steps.append(finishing)
+    steps.append(d.checkpoint('c0', checkpoint_path=cpdir))
     if ncp == 2:
         steps += [d.add_field('b', 'string', 'x'), d.checkpoint('c1', checkpoint_path=cpdir)]
     if fail_at is not None:
@@ -122,9 +138,9 @@ def run_case(case):
                 'fields': [[f['name'] for f in r['schema']['fields']] for r in dp['resources']],
                 'rows': [[sorted(row.items()) for row in res] for res in results]}
 
-    def run_plain(cpdir, fail_at=None, src_fail=None):
+    def run_plain(cpdir, fail_at=None, src_fail=None, up_fail=None):
         cnt = {'pulled': 0}
-        out = lab.run(make_flow(tables, ncp, cpdir, cnt, fail_at, src_fail), validate=True)
+        out = lab.run(make_flow(tables, ncp, cpdir, cnt, fail_at, src_fail, up_fail), validate=True)
         rep = {'ok': out.ok, 'pulled': cnt['pulled']}
         if out.ok:
             rep['summary'] = summarize(out.results, out.dp)
@@ -180,7 +196,9 @@ def run_case(case):
     def reader_flow(cpdir):
         # the documented idiom of a second flow that starts from the checkpoint: Flow(checkpoint(name), ...)
         d_ = lab.df()
-        out = lab.run([d_.checkpoint('c%d' % (ncp - 1), checkpoint_path=cpdir), d_.update_package(title='reader')])
+        # (also with the documented resources= option: it selects among what the checkpoint holds)
+        kw_ = boot.rng(case['seed'], 'C08', 'reader_kw', cpdir).choice([{}, {}, {'resources': ['res0']}, {'resources': 'res0'}])
+        out = lab.run([d_.checkpoint('c%d' % (ncp - 1), checkpoint_path=cpdir, **kw_), d_.update_package(title='reader')])
         return {'ok': out.ok, 'rows': [len(r) for r in out.results] if out.ok else None}
 
     def recover(cpdir, complete_before, what):
@@ -269,6 +287,22 @@ def run_case(case):
         if (ncp - 1) in complete:
             add('checkpoint_committed_on_failure', '%s: checkpoint c%d was committed although the run failed'
                 % (what, ncp - 1), 'committed_on_failure')
+        recover(cpdir, complete, what)
+        shutil.rmtree(cpdir, ignore_errors=True)
+    # a step in front of the checkpoints fails in its end-of-stream work (all rows have been written by then)
+    for up in (('res_end', 'pkg_end') if case['mode'] == 'downstream' else ()):
+        cpdir = 'u_%s' % up
+        prepare(cpdir)
+        code, rep = crashlab.in_child(lambda: run_plain(cpdir, up_fail=up), os.path.join(scratch, 'rep.json'))
+        what = 'a step before the checkpoints fails at the end of its stream (%s)' % up
+        if not rep or rep.get('ok'):
+            add('error_swallowed', '%s: run did not fail (%r)' % (what, rep), 'upstream_end_error_swallowed')
+        counters['crash_points_executed'] += 1
+        cov['mode']['upstream_end_of_stream_failure'] = cov['mode'].get('upstream_end_of_stream_failure', 0) + 1
+        complete = post_crash(cpdir, what)
+        if complete:
+            add('checkpoint_committed_on_failure', '%s: checkpoints %r were committed although the run failed'
+                % (what, sorted(complete)), 'committed_on_failure')
         recover(cpdir, complete, what)
         shutil.rmtree(cpdir, ignore_errors=True)
     # the SOURCE fails while the checkpoints are being written and a step after them swallows the error: whatever the
